@@ -12,6 +12,12 @@
 /* the four table builders that the symbolic front end cannot execute (libm sin/cos, pointer<->integer casts, level search in
  * floating point) are redirected to harness functions returning objects built from the dumped tables (apimod.h); everything
  * else in module_api.c - fill_module_precomp, fill_virtual_table, the conversion / pointwise precomputations - is the real code */
+#include "reim/reim_fft.h"
+#include "q120/q120_ntt.h"
+REIM_FFT_PRECOMP* vf_new_reim_fft_precomp(uint32_t m, uint32_t nb);
+REIM_IFFT_PRECOMP* vf_new_reim_ifft_precomp(uint32_t m, uint32_t nb);
+q120_ntt_precomp* vf_q120_new_ntt_bb_precomp(const uint64_t n);
+q120_ntt_precomp* vf_q120_new_intt_bb_precomp(const uint64_t n);
 #define new_reim_fft_precomp vf_new_reim_fft_precomp
 #define new_reim_ifft_precomp vf_new_reim_ifft_precomp
 #define q120_new_ntt_bb_precomp vf_q120_new_ntt_bb_precomp
